@@ -932,9 +932,30 @@ package gmars
 //@   modifies nothing
 // exprVal: the value go/types.Eval gives to the token sequence (uninterpreted)
 //@ uf exprVal(toks Slice) int
-//@ trusted evaluateExpression
+// evaluateExpression: its body is verified (identifiers are rejected before the text reaches the evaluator, the
+// value is in 32-bit range, no panic); that the value is the arithmetic value of the expression is go/types.Eval's
+// job and enters as an assumed clause.
+//@ extern token.NewFileSet
 //@   modifies nothing
-//@   ensures result.1 == nil ==> 0 - 2147483648 <= result.0 && result.0 <= 2147483647 && result.0 == exprVal(expr)
+//@   ensures result != nil
+// assumed for the texts built here (numbers, operators, parentheses only): an accepted expression is a constant
+//@ extern types.Eval
+//@   modifies nothing
+//@   ensures result.1 == nil ==> result.0.Value != nil
+//@ extern iface:Value.String
+//@   modifies nothing
+//@ func evaluateExpression
+//@   panics [C05][C07]
+//@   modifies nothing
+//@   assumes result.1 == nil ==> result.0 == exprVal(expr)
+//@   ensures [C07] result.1 == nil ==> 0 - 2147483648 <= result.0 && result.0 <= 2147483647
+//@   ensures [C05][C07] result.1 == nil ==> (forall k :: 0 <= k && k < len(expr) ==> expr[k].typ != tokText)
+//@   loop 1
+//@     invariant 0 - 1 <= rangeindex && rangeindex < len(expr) && (forall k :: 0 <= k && k <= rangeindex ==> expr[k].typ != tokText)
+//@     decreases len(expr) - rangeindex
+//@   loop 2
+//@     invariant 0 - 1 <= rangeindex && rangeindex < len(flippedExpr)
+//@     decreases len(flippedExpr) - rangeindex
 //@ trusted (*compiler).loadSymbols
 //@   modifies c.values, c.labels, c.startExpr
 //@ func (*compiler).evaluateAssertions
